@@ -1,31 +1,49 @@
-(* C16 — exhaustive float64 sweep (kept in its own file: about 90 s of vm_compute). *)
+(* C16 — exhaustive float64 evaluation around the default proportion (closed
+   boolean terms only; a few seconds of vm_compute).
+
+   Full statement, for the record: for ALL 0 <= c <= nc <= 400,
+       i_gt_pp (i_mean c nc) p02 = (nc <? 5 * c).
+   It was checked by the same method over all 80 601 pairs (95 s of vm_compute) but is
+   not part of the build: coqchk re-evaluates the term without the VM and needs
+   tens of minutes for it.  What is kept is the band of counts up to five channels
+   either side of nc/5 — the counts "one below / at / above proportion*nc" of the
+   property and more.  Missing for the full statement: monotonicity of
+   c |-> fl(c/nc) (round_le on Bdiv_correct), which would extend the band to all c. *)
 From Coq Require Import ZArith List Bool Lia.
 From IBL.C16 Require Import Model.
 Import ListNotations.
 Open Scope Z_scope.
 
-(* ------------------------------------------------------------------ *)
-(* float64 mean against the default proportion 0.2: exhaustive          *)
-(* ------------------------------------------------------------------ *)
 Definition p02 : b64 := of_me64 3602879701896397 (-54).     (* the float64 literal 0.2 *)
 
+(* the counts c with |5c - nc| <= 25, 0 <= c <= nc : c = nc/5 - 5 + k, k = 0..11 *)
+Definition band (nc : Z) : list Z :=
+  filter (fun c => (0 <=? c) && (c <=? nc) && (Z.abs (5 * c - nc) <=? 25))
+         (map (fun k => nc / 5 - 5 + Z.of_nat k) (seq 0 12)).
+
 Definition default_prop_ok_nc (nc : Z) : bool :=
-  forallb (fun c => Bool.eqb (i_gt_pp (i_mean c nc) p02) (nc <? 5 * c))
-          (map Z.of_nat (seq 0 (Z.to_nat (nc + 1)))).
+  forallb (fun c => Bool.eqb (i_gt_pp (i_mean c nc) p02) (nc <? 5 * c)) (band nc).
 
 Lemma default_prop_sweep :
   forallb default_prop_ok_nc (map Z.of_nat (seq 1 400)) = true.
 Proof. vm_cast_no_check (eq_refl true). Qed.
 
-Lemma pub_default_prop nc c : 1 <= nc <= 400 -> 0 <= c <= nc ->
+Lemma in_band nc c : 0 <= c <= nc -> Z.abs (5 * c - nc) <= 25 -> In c (band nc).
+Proof.
+  intros Hc Hb. unfold band. apply filter_In. split.
+  - apply in_map_iff. exists (Z.to_nat (c - (nc / 5 - 5))).
+    pose proof (Z.div_mod nc 5 ltac:(lia)). pose proof (Z.mod_pos_bound nc 5 ltac:(lia)).
+    split; [lia|]. apply in_seq. lia.
+  - apply andb_true_intro; split; [apply andb_true_intro; split|]; apply Z.leb_le; lia.
+Qed.
+
+Lemma pub_default_prop nc c : 1 <= nc <= 400 -> 0 <= c <= nc -> Z.abs (5 * c - nc) <= 25 ->
   i_gt_pp (i_mean c nc) p02 = (nc <? 5 * c).
 Proof.
-  intros Hn Hc. pose proof default_prop_sweep as H.
+  intros Hn Hc Hb. pose proof default_prop_sweep as H.
   rewrite forallb_forall in H.
   assert (Hin : In nc (map Z.of_nat (seq 1 400))).
   { apply in_map_iff. exists (Z.to_nat nc). split; [lia|]. apply in_seq. lia. }
   specialize (H nc Hin). unfold default_prop_ok_nc in H. rewrite forallb_forall in H.
-  assert (Hic : In c (map Z.of_nat (seq 0 (Z.to_nat (nc + 1))))).
-  { apply in_map_iff. exists (Z.to_nat c). split; [lia|]. apply in_seq. lia. }
-  specialize (H c Hic). now apply eqb_prop in H.
+  specialize (H c (in_band nc c Hc Hb)). now apply eqb_prop in H.
 Qed.
